@@ -17,9 +17,9 @@ import numpy as np
 from harness.props import c13_probe as P
 
 PROP = 'C13'
-GENERATED = ['Disease_' + n for n in P.DISEASES]
+GENERATED = ['Disease_' + n for n in P.DISEASES] + ['Treat_syphilis']
 DRIVER = 'Drivers/C13.lean'
-DRIVER_MODULES = ['StarsimModel.Generated.Disease_' + n for n in P.DISEASES] + ['StarsimModel.Model.Proto']
+DRIVER_MODULES = ['StarsimModel.Generated.Disease_' + n for n in P.DISEASES] + ['StarsimModel.Generated.Treat_syphilis', 'StarsimModel.Model.Proto']
 RULE = ('generated sims for each of the 8 built-in compartmental diseases, with and without demographics (Deaths, Pregnancy), plus '
         'co-circulating pairs; one case = one distinct (disease, method, flag vector before, observed guard valuation) of a real '
         'method call, compared with the generated Lean per-agent function; non-trivial = the method changed at least one flag of that agent')
@@ -85,7 +85,7 @@ def get_facts(ctx):
 
 
 def plan(ctx, per_disease_quick, per_disease_thorough, small=True):
-    cfgs = []
+    cfgs = P.scenario_cfgs(ctx.rng)      # families every run exercises: treatment products, two instances, long histories, boundaries
     k = ctx.budget(per_disease_quick, per_disease_thorough)
     for d in P.DISEASES:
         for i in range(k):
@@ -208,6 +208,82 @@ def correspond(ctx):
             if not known[:, j].all():
                 unknown_atoms[(n, call.method, a['field'])] = unknown_atoms.get((n, call.method, a['field']), 0) + int((~known[:, j]).sum())
 
+    treat_rows = {}     # (before bits, guard string) -> {after bits: [count, example]}   for syph_treatment.step / bpg
+    out_viol = []
+    out_checked = {}
+
+    def tx_reachable(row, fl, rows, dname):
+        """ flag vectors a treated agent can end with: apply, in order, any subset of the product rows whose pre-state it holds """
+        outs = {tuple(row)}
+        for dis, pre, post, eff in rows:
+            if dis != dname: continue
+            new = set()
+            for r in outs:
+                new.add(r)
+                if r[fl.index(pre)] and float(eff) > 0:
+                    r2 = list(r); r2[fl.index(pre)] = False; r2[fl.index(post)] = True
+                    new.add(tuple(r2))
+            outs = new
+        return outs
+
+    def on_outside(ev):
+        label = ev['label']; au = ev['auids']
+        for nm, (dis, dn, bef) in ev['before'].items():
+            aft = ev['after'][nm][2]
+            fl = facts[dn]['flags']
+            key = id(dis)
+            # the frame check continues from the state after this writer
+            if key in state['last']:
+                pau, paf = state['last'][key]
+                common, i0, i1 = np.intersect1d(pau, au, assume_unique=True, return_indices=True)
+                diff = (paf[i0] != bef[i1]).any(axis=1)
+                frame['checked'] += len(common)
+                if diff.any() and len(frame['violations']) < 5:
+                    j = int(np.flatnonzero(diff)[0])
+                    frame['violations'].append(dict(disease=dn, ti=ev['ti'], before_method=label, uid=int(common[j]),
+                                                    was=P.bits(paf[i0][j]), now=P.bits(bef[i1][j]), cfg=state['cfg']))
+            state['last'][key] = (au, aft)
+            out_checked[label] = out_checked.get(label, 0) + len(au)
+            if ev['mixed']:
+                continue
+            changed = (bef != aft).any(axis=1)
+            if label == 'syph_treatment.step' and dn == 'syphilis':
+                res = ev['tx_uids']       # the uids the intervention handed to Tx.administer (= treat_inds; none if nobody was treated)
+                treated = np.isin(au, np.asarray(res)) if res is not None else np.zeros(len(au), dtype=bool)
+                ng = len(treat_facts['atoms'])
+                rows = np.concatenate([bef, treated[:, None], aft], axis=1)
+                uniq, idx, cnt = np.unique(rows, axis=0, return_index=True, return_counts=True)
+                nf = len(fl)
+                for r, i, c in zip(uniq, idx, cnt):
+                    g = ('1' if r[nf] else '0') + '?' * (ng - 1)
+                    slot = treat_rows.setdefault((P.bits(r[:nf]), g), {})
+                    e = slot.setdefault(P.bits(r[nf + 1:]), [0, dict(ti=ev['ti'], uid=int(au[i]), cfg=state['cfg'])])
+                    e[0] += int(c)
+            elif label == 'Tx.administer':
+                a, kw = ev['args']
+                arg = a[0] if a else kw.get('uids')
+                treated = np.isin(au, np.asarray(arg))
+                rows = [tuple(r) for r in ev['obj'].df[['disease', 'state', 'post_state', 'efficacy']].values.tolist()]
+                bad = changed & ~treated
+                for j in np.flatnonzero(changed & treated):
+                    if tuple(aft[j]) not in tx_reachable(bef[j], fl, rows, dis.name):
+                        bad[j] = True
+                if bad.any() and len(out_viol) < 6:
+                    j = int(np.flatnonzero(bad)[0])
+                    out_viol.append(dict(label=label, disease=dn, ti=ev['ti'], uid=int(au[j]), treated=bool(treated[j]),
+                                         was=dict(zip(fl, map(int, bef[j]))), now=dict(zip(fl, map(int, aft[j]))), cfg=state['cfg']))
+            elif label == 'ART.step' and dn == 'hiv':
+                k = fl.index('on_art')
+                other = np.delete(bef != aft, k, axis=1).any(axis=1)
+                bad = other | (bef[:, k] & ~aft[:, k]) | (~bef[:, k] & aft[:, k] & ~bef[:, fl.index('infected')])
+                if bad.any() and len(out_viol) < 6:
+                    j = int(np.flatnonzero(bad)[0])
+                    out_viol.append(dict(label=label, disease=dn, ti=ev['ti'], uid=int(au[j]), was=P.bits(bef[j]), now=P.bits(aft[j]), cfg=state['cfg']))
+            elif changed.any() and len(out_viol) < 6:      # every other outside writer must leave disease flags alone
+                j = int(np.flatnonzero(changed)[0])
+                out_viol.append(dict(label=label, disease=dn, ti=ev['ti'], uid=int(au[j]), was=P.bits(bef[j]), now=P.bits(aft[j]), cfg=state['cfg']))
+
+    treat_facts = ((ctx.extracted.get('Treat_syphilis') or {}).get('facts') or {}).get('products', {}).get('bpg')
     cfgs = plan(ctx, 2, 8, small=not ctx.thorough)
     nrun = 0
     for cfg in cfgs:
@@ -216,7 +292,9 @@ def correspond(ctx):
             continue
         state['cfg'] = cfg; state['last'] = {}
         try:
-            with P.Recorder(facts, on_call) as rec:
+            if any(t['kind'] == 'syph' for t in cfg.get('treatments', [])) and not treat_facts:
+                continue
+            with P.Recorder(facts, on_call, on_outside=on_outside) as rec:
                 sim = P.build(cfg); sim.init(); sim.run()
             if rec.errors:
                 ctx.broke('correspondence', 'C13.probe', '; '.join(sorted(set(rec.errors))[:4]), data=dict(cfg=cfg))
@@ -253,6 +331,26 @@ def correspond(ctx):
         if '?' not in g and len(obs) > 1:
             ctx.broke('correspondence', f'C13.{n}.{m}', f'real code is not a function of (flags, observed guards) at `{ln}`: {list(obs)}',
                       data=dict(line=ln))
+    # treatment rounds against the generated treatment model
+    tkeys = sorted(treat_rows)
+    tlines = [f'treat bpg {b} {g}' for b, g in tkeys]
+    tout = locked_drive(ctx, tlines) if tlines else []
+    for k, ln, o in zip(tkeys, tlines, tout):
+        obs = treat_rows[k]
+        ctx.count('treatment_agent_rounds', sum(v[0] for v in obs.values()))
+        ctx.case(ln, nontrivial=any(a != k[0] for a in obs))
+        model = set(o[3:].split('|')) if o.startswith('ok ') else set()
+        for a, (cnt, ex) in obs.items():
+            if a not in model:
+                fl = facts['syphilis']['flags']
+                ctx.broke('correspondence', 'C13.treat.bpg',
+                          f'syph_treatment.step took flags {dict(zip(fl, k[0]))} to {dict(zip(fl, a))} (treated={k[1][0]}); '
+                          f'generated treatBpg allows {sorted(model)[:6]} ({cnt} agent-rounds)', data=dict(example=ex, line=ln, model=o))
+    for v in out_viol:
+        ctx.broke('correspondence', f'C13.frame.{v["label"]}',
+                  f'{v["label"]} changed {v["disease"]} flags of uid {v["uid"]} at ti={v["ti"]} in a way its model does not allow: {v["was"]} -> {v["now"]}',
+                  data=v)
+    ctx.notes['outside_writer_agent_checks'] = out_checked
     for (n, hname), v in hyp_viol.items():
         # a theorem hypothesis failing on the real arrays is itself a violation of the property on the real code (same
         # signature as the oracle's check of that relation; replay = oracle_run on the stored configuration)
@@ -384,7 +482,8 @@ def oracle_run(cfg, max_fail=40):
         u = arg_uids(call)
         if u is None: return
         nm = call.disease.name
-        events.setdefault(nm, {}); events[nm][call.ti] = events[nm].get(call.ti, 0) + len(u)
+        # distinct agents per step: an agent cured and re-infected inside one step (treatment) can only be recorded once
+        events.setdefault(nm, {}); events[nm].setdefault(call.ti, set()).update(int(x) for x in u)
         ever.setdefault(nm, []).append(u.copy())
         if len(u):
             not_now[nm] = not_now.get(nm, 0) + int((np.asarray(call.disease.ti_infected.raw[u], dtype=float) != call.ti).sum())
@@ -409,6 +508,15 @@ def oracle_run(cfg, max_fail=40):
                      f'{call.name}: agent {int(u[j])} infected at ti={call.ti} has scheduled {t}={v[j]:g} before the infection '
                      f'({int(bad.sum())} of {len(u)} newly infected agents)', ti=call.ti, uid=int(u[j]))
 
+    # arrows a treatment product adds for its disease (pre-state -> post-state), and whether it can undo permanent immunity
+    extra_arrows = {}
+    for t in cfg.get('treatments', []):
+        if t['kind'] == 'tx':
+            for dis, pre, post, eff in t['rows']:
+                extra_arrows.setdefault(dis, set()).add((pre, post))
+        elif t['kind'] == 'syph':
+            for st in ['primary', 'secondary', 'latent_temp', 'latent_long', 'tertiary']:
+                extra_arrows.setdefault('syphilis', set()).add((st, S))
     snaps = []
 
     class c13_snapshot(ss.Analyzer):
@@ -474,7 +582,12 @@ def oracle_run(cfg, max_fail=40):
                 for a_i in range(len(comps)):
                     for b_i in range(len(comps)):
                         a_c, b_c = comps[a_i], comps[b_i]
-                        allowed = syph_arrow(a_c, b_c) if dn == 'syphilis' else (a_c, b_c) in spec['arrows']
+                        base_ok = (lambda x, y: syph_arrow(x, y)) if dn == 'syphilis' else (lambda x, y: (x, y) in spec['arrows'])
+                        allowed = base_ok(a_c, b_c)
+                        if not allowed and extra_arrows.get(nm):
+                            # with a treatment product a step is: progression, then treatment, then (re)infection — up to three hops
+                            one = lambda x, y: base_ok(x, y) or (x, y) in extra_arrows[nm]
+                            allowed = any(one(a_c, m1) and any(one(m1, m2) and one(m2, b_c) for m2 in comps) for m1 in comps)
                         if allowed: continue
                         hit = ok & (pa == a_i) & (ca == b_i)
                         if hit.any():
@@ -489,7 +602,7 @@ def oracle_run(cfg, max_fail=40):
         if dn is None: continue
         ev = events.get(nm, {})
         npts = len(dis.results.new_infections)
-        exp = np.array([ev.get(t, 0) for t in range(npts)])
+        exp = np.array([len(ev.get(t, ())) for t in range(npts)])
         got = np.asarray(dis.results.new_infections.values if hasattr(dis.results.new_infections, 'values') else dis.results.new_infections, dtype=float)
         cum = np.asarray(dis.results.cum_infections.values if hasattr(dis.results.cum_infections, 'values') else dis.results.cum_infections, dtype=float)
         if not np.array_equal(got, exp):
@@ -503,12 +616,12 @@ def oracle_run(cfg, max_fail=40):
             t = int(np.flatnonzero(cum != np.cumsum(exp))[0])
             fail(dict(oracle='cum-infections', disease=dn),
                  f'{dn}: cum_infections[{t}]={cum[t]:g} but {np.cumsum(exp)[t]} infection events happened up to that step', ti=t)
-        if SPEC[dn]['permanent'] and ever.get(nm):
+        if SPEC[dn]['permanent'] and ever.get(nm) and not any(b == S for a, b in extra_arrows.get(nm, ())):
             allu = np.concatenate(ever[nm])
             if len(np.unique(allu)) != len(allu):
                 fail(dict(oracle='reinfection', disease=dn),
                      f'{dn}: immunity is permanent but {len(allu) - len(np.unique(allu))} of {len(allu)} infection events hit an agent already infected before')
-    return fails, dict(steps=len(snaps), events={k: int(sum(v.values())) for k, v in events.items()})
+    return fails, dict(steps=len(snaps), events={k: int(sum(len(x) for x in v.values())) for k, v in events.items()})
 
 
 def search(ctx):
